@@ -1,0 +1,84 @@
+//go:build verif
+
+// Safety-sweep contracts (no explicit panic, index/slice in range, allocation
+// sizes non-negative, wire-decoded pointers checked before use) for functions
+// that need no precondition. Generated from a zero-annotation sweep; checked by
+// /verif/govc. Comment-only file.
+package cose
+
+//@ func cose.Encrypt0.Decrypt
+//@   props C10(sweep)
+//@   sweep bounds,panic,make,nilmem,div
+
+//@ func cose.Encrypt0.Encrypt
+//@   props C10(sweep)
+//@   sweep bounds,panic,make,nilmem,div
+
+//@ func cose.Encrypt0.additionalData
+//@   props C10(sweep)
+//@   sweep bounds,panic,make,nilmem,div
+
+//@ func cose.Encrypt0Tag.UnmarshalCBOR
+//@   props C10(sweep)
+//@   sweep bounds,panic,make,nilmem,div
+
+//@ func cose.Header.UnmarshalCBORStream
+//@   props C10(sweep)
+//@   sweep bounds,panic,make,nilmem,div
+
+//@ func cose.IntOrStr.UnmarshalCBOR
+//@   props C10(sweep)
+//@   sweep bounds,panic,make,nilmem,div
+
+//@ func cose.Key.KeyOps
+//@   props C10(sweep)
+//@   sweep bounds,panic,make,nilmem,div
+
+//@ func cose.Key.MarshalCBOR
+//@   props C10(sweep)
+//@   sweep bounds,panic,make,nilmem,div
+
+//@ func cose.Key.ec2
+//@   props C10(sweep)
+//@   sweep bounds,panic,make,nilmem,div
+
+//@ func cose.Mac0Tag.UnmarshalCBOR
+//@   props C10(sweep)
+//@   sweep bounds,panic,make,nilmem,div
+
+//@ func cose.NewKey
+//@   props C10(sweep)
+//@   sweep bounds,panic,make,nilmem,div
+
+//@ func cose.Sign1Tag.UnmarshalCBOR
+//@   props C10(sweep)
+//@   sweep bounds,panic,make,nilmem,div
+
+//@ func cose.aeadCrypter.Decrypt
+//@   props C10(sweep)
+//@   sweep bounds,panic,make,nilmem,div
+
+//@ func cose.ccmAEAD.NonceSize
+//@   props C10(sweep)
+//@   sweep bounds,panic,make,nilmem,div
+
+//@ func cose.ctrCrypter.Decrypt
+//@   props C10(sweep)
+//@   sweep bounds,panic,make,nilmem,div
+
+//@ func cose.ecSigAlg
+//@   props C10(sweep)
+//@   sweep bounds,panic,make,nilmem,div
+
+//@ func cose.newRawHeaderMap
+//@   props C10(sweep)
+//@   sweep bounds,panic,make,nilmem,div
+
+//@ func cose.rsaSigAlg
+//@   props C10(sweep)
+//@   sweep bounds,panic,make,nilmem,div
+
+//@ func cose.unpad
+//@   props C10(sweep)
+//@   sweep bounds,panic,make,nilmem,div
+
